@@ -67,8 +67,20 @@ def specSelectH (abs : List Nat) (c k : Nat) : String :=
 
 def specGet (abs : List Nat) (i : Nat) : String := optS abs[i]?
 
+/-- history letters: `n` next, `b` next_back, `l` len, `c` by_ref().count(), `a` by_ref().last(),
+    `t u v w x y z` = nth(1 2 5 64 255 256 1000), the same capitals = nth_back -/
+def nthAmount (c : Char) : Option Nat :=
+  match c.toLower with
+  | 't' => some 1 | 'u' => some 2 | 'v' => some 5 | 'w' => some 64
+  | 'x' => some 255 | 'y' => some 256 | 'z' => some 1000 | _ => none
+
 def opsOf (cs : List Char) : List Iter.IterOp :=
-  cs.map (fun c => if c == 'n' then .next else if c == 'b' then .nextBack else .len)
+  cs.map (fun c =>
+    if c == 'n' then .next else if c == 'b' then .nextBack
+    else if c == 'c' then .count else if c == 'a' then .last
+    else match nthAmount c with
+      | some k => if c.isUpper then .nthBack k else .nth k
+      | none => .len)
 
 /-- deque semantics (specification) of a history of iterator calls -/
 def specIterHist (abs : List Nat) (ops : List Char) : List String :=
@@ -77,6 +89,33 @@ def specIterHist (abs : List Nat) (ops : List Char) : List String :=
 /-- the `WTIterator` state machine (model) over a `get_unchecked` function -/
 def modelIterHist (getU : Nat → M Nat) (n : Nat) (ops : List Char) : List String :=
   (Iter.run getU { i := 0, e := n } (opsOf ops)).map Out.render
+
+/-- history letters of the one-ended iterators: `n` next, `c` count, `a` last, `t..z` nth -/
+def fwdOpsOf (cs : List Char) : List Iter.FwdOp :=
+  cs.map (fun c =>
+    if c == 'c' then .count else if c == 'a' then .last
+    else match nthAmount c with
+      | some k => .nth k
+      | none => .next)
+
+/-- model (index-driven iterator over the model's `get`) | specification (deque over `abs`) -/
+def fwdHist (getO : Nat → M (Option Nat)) (abs : List Nat) (hist : String) : String :=
+  let ops := fwdOpsOf hist.toList
+  " ".intercalate ((Iter.fwdRun getO abs.length 0 ops).map Out.render) ++ "|" ++
+    " ".intercalate ((Iter.specRun abs (ops.map Iter.FwdOp.toIterOp)).map Out.render)
+
+/-- drain a position iterator (until its first `None`), then call `next` three more times -/
+def posAfter (bit : Bool) (b : BV.BitVector) (fuel : Nat) (it : BV.PosIter) : String :=
+  let rec drainIt : Nat → BV.PosIter → BV.PosIter
+    | 0, it => it
+    | f + 1, it => match BV.PosIter.next bit b it with
+      | (some _, it') => drainIt f it'
+      | (none, it') => it'
+  let it1 := drainIt fuel it
+  let r1 := BV.PosIter.next bit b it1
+  let r2 := BV.PosIter.next bit b r1.2
+  let r3 := BV.PosIter.next bit b r2.2
+  " ".intercalate ([r1.1, r2.1, r3.1].map optS) ++ "|N N N"
 
 def isOk : M α → Bool
   | .ok _ => true
@@ -311,6 +350,7 @@ def handleQ (st : St) (k : Nat) (q : String) (args : List String) : String :=
     | "get" => both (.ofOpt (QV.get dbg qv (a 0))) (specGet abs (a 0))
     | "get_unchecked" => both (.ofVal (QV.getUnchecked dbg qv (a 0))) s!"V:{abs.getD (a 0) 0}"
     | "iter" | "into_iter" => collectIter (fun i => QV.get dbg qv i) (abs.length + 2) ++ "|" ++ listS abs
+    | "fwdhist" | "fwdhist_into" => fwdHist (fun i => QV.get dbg qv i) abs (args.getD 0 "")
     | _ => "bad-op"
   | .rsq B r abs =>
     let dbg := st.cfg.dbg
@@ -332,6 +372,7 @@ def handleQ (st : St) (k : Nat) (q : String) (args : List String) : String :=
         (if a 0 ≤ 3 then optS (some (Spec.occsSmaller id (a 0) abs)) else "N")
     | "occs_smaller_unchecked" => both (.ofVal (RSQ.occsSmallerUnchecked dbg r (a 0))) s!"V:{Spec.occsSmaller id (a 0) abs}"
     | "iter" => collectIter (fun i => RSQ.get dbg r i) (abs.length + 2) ++ "|" ++ listS abs
+    | "fwdhist" | "fwdhist_into" => fwdHist (fun i => RSQ.get dbg r i) abs (args.getD 0 "")
     | "prefetch_info" => both (.ofUnit (PFS.rsqPrefetchInfo B r (a 0))) "U"
     | "prefetch_data" => both (.ofUnit (PFS.rsqPrefetchData B r (a 0))) "U"
     | _ => "bad-op"
@@ -358,6 +399,7 @@ def handleQ (st : St) (k : Nat) (q : String) (args : List String) : String :=
         (if i < 8 * ((n + 511) / 512) then s!"V:{Spec.ofBits ((abs.drop (64 * i)).take 64)}" else "F:assertdoc")
     | "iter" | "into_iter" => collectIter (fun i => (BV.get b i).map (·.map b2n)) (n + 2) ++ "|" ++ listS (abs.map b2n)
     | "n_lines" => both (.val (BV.nLines b)) s!"V:{(n + 511) / 512}"
+    | "fwdhist" | "fwdhist_into" => fwdHist (fun i => (BV.get b i).map (·.map b2n)) (abs.map b2n) (args.getD 0 "")
     | "prefetch_line" => both (.ofUnit (PFS.bvPrefetchLine b (a 0))) "U"
     | "iterlen" | "iterlen_ref" =>
       -- `len()` before the first and after each of `n + 2` calls of `next`
@@ -369,6 +411,8 @@ def handleQ (st : St) (k : Nat) (q : String) (args : List String) : String :=
     | "zeros" => listS (BV.PosIter.collect false b (n + 1) BV.PosIter.new) ++ "|" ++ listS (onesPos false 0)
     | "ones_with_pos" => listS (BV.PosIter.collect true b (n + 1) (BV.PosIter.withPos true b (a 0))) ++ "|" ++ listS (onesPos true (a 0))
     | "zeros_with_pos" => listS (BV.PosIter.collect false b (n + 1) (BV.PosIter.withPos false b (a 0))) ++ "|" ++ listS (onesPos false (a 0))
+    | "ones_after" => posAfter true b (n + 2) (BV.PosIter.withPos true b (a 0))
+    | "zeros_after" => posAfter false b (n + 2) (BV.PosIter.withPos false b (a 0))
     | _ => "bad-op"
   | .rsn r abs =>
     let n := abs.length
@@ -416,10 +460,13 @@ def handleQ (st : St) (k : Nat) (q : String) (args : List String) : String :=
     | "select0_unchecked" => both (.ofVal (do let v ← DA.select0 s0 d (a 0); unwrap v)) s!"V:{(Spec.select false (a 0) abs).getD 0}"
     | "is_empty" => both (.val (b2n (DA.len d == 0))) s!"V:{b2n abs.isEmpty}"
     | "iter" => collectIter (fun i => (DA.get d i).map (·.map b2n)) (n + 2) ++ "|" ++ listS (abs.map b2n)
+    | "fwdhist" => fwdHist (fun i => (DA.get d i).map (·.map b2n)) (abs.map b2n) (args.getD 0 "")
     | "ones" => listS (BV.PosIter.collect true d.bv (n + 1) BV.PosIter.new) ++ "|" ++ listS ((List.range n).filter (fun i => abs.getD i false))
     | "zeros" => listS (BV.PosIter.collect false d.bv (n + 1) BV.PosIter.new) ++ "|" ++ listS ((List.range n).filter (fun i => !abs.getD i false))
     | "ones_with_pos" => listS (BV.PosIter.collect true d.bv (n + 1) (BV.PosIter.withPos true d.bv (a 0))) ++ "|" ++ listS ((List.range n).filter (fun i => i ≥ a 0 ∧ abs.getD i false))
     | "zeros_with_pos" => listS (BV.PosIter.collect false d.bv (n + 1) (BV.PosIter.withPos false d.bv (a 0))) ++ "|" ++ listS ((List.range n).filter (fun i => i ≥ a 0 ∧ !abs.getD i false))
+    | "ones_after" => posAfter true d.bv (n + 2) (BV.PosIter.withPos true d.bv (a 0))
+    | "zeros_after" => posAfter false d.bv (n + 2) (BV.PosIter.withPos false d.bv (a 0))
     | _ => "bad-op"
   | .qwt c t abs =>
     match q with
